@@ -24,16 +24,20 @@ def hdr4 : Str := Gengo.Gen.headerParts.getD 3 []
 def header (pkgName genName : Str) : Str :=
   hdr1 ++ pkgName ++ hdr2 ++ genName ++ hdr3 ++ pkgName ++ hdr4
 
-def importLine (e : Str × Str) : Str := '\t' :: (e.2 ++ ' ' :: '"' :: (e.1 ++ ['"', '\n']))
+/-- one `Fprintf(w, "\t%s \"%s\"\n", name, path)` line; the pieces of the format are regenerated -/
+def importLine (e : Str × Str) : Str :=
+  Gengo.Gen.importLineParts.getD 0 [] ++ e.2 ++ Gengo.Gen.importLineParts.getD 1 [] ++ e.1 ++ Gengo.Gen.importLineParts.getD 2 []
 
 /-- `imports`: the tracker's path ↦ name map, in arbitrary (Go map) order -/
 def importBlock (imports : List (Str × Str)) : Str :=
   if imports.isEmpty then []
-  else "\nimport (\n".toList ++ ((sortBy (·.1) imports).map importLine).flatten ++ ")\n".toList
+  else Gengo.Gen.importOpen ++ ((sortBy (·.1) imports).map importLine).flatten ++ Gengo.Gen.importClose
 
 def source (pkgName genName : Str) (imports : List (Str × Str)) (fragments : List Str) : Str :=
   header pkgName genName ++ importBlock imports ++ fragments.flatten
 
-def fileName (base gen : Str) : Str := base ++ ['.'] ++ gen ++ ".go".toList
+/-- `fmt.Sprintf("%s.%s.go", base, gen)`, pieces regenerated from the source -/
+def fileName (base gen : Str) : Str :=
+  Gengo.Gen.fileNameParts.getD 0 [] ++ base ++ Gengo.Gen.fileNameParts.getD 1 [] ++ gen ++ Gengo.Gen.fileNameParts.getD 2 []
 
 end Gengo.Assemble
